@@ -1670,10 +1670,10 @@ class RawAlgorithmsMixIn:
         if order != 'C':
             raise NotImplementedError('should implement that')
 
-        if isinstance(newshape,int):
+        if numpy.ndim(newshape) == 0:
             newshape = (newshape,)
 
-        return numpy.reshape(a_data, a_data.shape[:2] + newshape)
+        return numpy.reshape(a_data, a_data.shape[:2] + tuple(newshape))
 
     @classmethod
     def _pb_reshape(cls, ybar_data, x_data, y_data,  out=None):
